@@ -146,7 +146,9 @@ func isolationCheck(t *testing.T, res *RunResult, seed int64) {
 		return
 	}
 	for i := 1; i <= res.NScenarios; i++ {
-		solo := RunOne(t, NewTape(seed), seed, RunOpts{Property: "C19", Only: i})
+		// the solo run reads the recorded choices of the concurrent run: the scenarios are drawn from the same prefix
+		// (also after shrinking, which edits the recorded tape), the schedule after that is whatever the rest yields
+		solo := RunOne(t, ReplayTape(res.Choices), seed, RunOpts{Property: "C19", Only: i})
 		res.Probes["c19.solo-runs"]++
 		if solo.EndReason != "quiescent" {
 			continue
